@@ -234,11 +234,17 @@ def run(ctx: Ctx) -> None:
 
     OPX = frozenset("()[]{}\"'` \t\nABCDEFGHIJKLMNOPQRSTUVWXYZ")
 
+    mode = {"concrete": False}
+
     def operand(name):
         # opaque operand text: any bracket-free, quote-free, space-free lower-case text
+        if mode["concrete"]:
+            return models.token("OPERAND", name.lower() * 2)
         return models.token("OPERAND", SStr.atom(name, free=True, excludes=OPX))
 
     def OA(name):
+        if mode["concrete"]:
+            return name.lower() * 2
         return Atom(name, free=True, excludes=OPX)
 
     def optoken(term):
@@ -255,6 +261,14 @@ def run(ctx: Ctx) -> None:
         return (v.attrs["value"] if isinstance(v, SObj) else v), o
 
     ctx.rule("M3", "each operator builder returns its operands once each, unmodified, in source order, joined only by spaces, the operator spelling and at most one outer balanced pair of parentheses", 25)
+    # operands are opaque texts when the builders can be evaluated on them; builders that scan or
+    # pattern-match their operands (regular expressions ...) are evaluated on concrete representatives
+    try:
+        for lab_ in ("and_test", "or_test", "add", "comparison", "not_expression", "neg", "func_params", "attr_bind", "list", "expression"):
+            X.eval_callback(lab_, lambda: [operand("X"), operand("Y"), operand("Z")][: {"not_expression": 1, "neg": 1, "attr_bind": 1, "expression": 1, "comparison": 3, "func_params": 3}.get(lab_, 2)])
+    except AnalysisError as ex:
+        mode["concrete"] = True
+        ctx.notes.append(f"builders are evaluated on concrete representative operands (symbolic evaluation not possible: {ex})")
     binary = {"and_test": " AND ", "or_test": " OR ", "add": " + ", "sub": " - ", "mul": " * ", "div": " / ", "power": " ^ "}
     wrapped_builders = {"and_test", "or_test", "comparison"}
     for lab, opx in binary.items():
@@ -272,7 +286,7 @@ def run(ctx: Ctx) -> None:
         def mk(term=term):
             op = optoken(term)
             holder["op"] = op
-            cres = X.eval_callback("compare_op", lambda: [op])[0].value
+            cres = X.call1("compare_op", lambda: [op])
             return [operand("X"), cres, operand("Y")]
 
         v, o = run_cb("comparison", mk)
@@ -280,9 +294,9 @@ def run(ctx: Ctx) -> None:
         want = SStr(["( ", OA("X"), " ", optext, " ", OA("Y"), " )"])
         ctx.check(same(v, want), "M3", f"comparison with {op_spelling(G, term)}", loc("comparison"), want.describe(), f"comparison builds {v!r} for operator {op_spelling(G, term)}: expected {want.describe()!r} (operator spelling unchanged)")
     v, o = run_cb("not_expression", lambda: [operand("X")])
-    ctx.check(v == SStr(["NOT ", OA("X")]), "M3", "builder not_expression", loc("not_expression"), "NOT X", f"not_expression(X) builds {v!r}")
+    ctx.check(same(v, SStr(["NOT ", OA("X")])), "M3", "builder not_expression", loc("not_expression"), "NOT X", f"not_expression(X) builds {v!r}")
     v, o = run_cb("neg", lambda: [operand("X")])
-    ctx.check(v == SStr(["-", OA("X")]), "M3", "builder neg", loc("neg"), "-X", f"neg(X) builds {v!r}")
+    ctx.check(same(v, SStr(["-", OA("X")])), "M3", "builder neg", loc("neg"), "-X", f"neg(X) builds {v!r}")
     # the builders return the token they were given first (position kept) - shared with C08
 
     # structured operands: what a builder receives in practice are results of other builders; a builder
@@ -291,14 +305,16 @@ def run(ctx: Ctx) -> None:
     IDENT = frozenset("()[]{}\"'` \t\n=<>!~%+-*/^,ABCDEFGHIJKLMNOPQRSTUVWXYZ")
 
     def sbind(nm):
-        w = models.token("UNQUOTED_STRING", SStr.atom(nm, first=models.LOWER, last=models.LOWER, excludes=IDENT, free=True))
-        return X.eval_callback("attr_bind", lambda: [w])[0].value
+        # concrete representative names: the forms below are plain strings, so builders that use
+        # regular expressions or scan characters can be evaluated exactly
+        w = models.token("UNQUOTED_STRING", nm)
+        return X.call1("attr_bind", lambda: [w])
 
     def scmp(a_, b_):
-        return X.eval_callback("comparison", lambda: [sbind(a_), X.eval_callback("compare_op", lambda: [optoken("EQUAL")])[0].value, sbind(b_)])[0].value
+        return X.call1("comparison", lambda: [sbind(a_), X.eval_callback("compare_op", lambda: [optoken("EQUAL")])[0].value, sbind(b_)])
 
     def wrapped(res):
-        return X.eval_callback("expression", lambda: [res])[0].value
+        return X.call1("expression", lambda: [res])
 
     def lit(text):
         return models.token("DOUBLE_QUOTED_STRING", text)
@@ -306,11 +322,11 @@ def run(ctx: Ctx) -> None:
     operand_makers = {
         "binding": lambda n_: sbind(n_),
         "comparison": lambda n_: scmp(n_ + "x", n_ + "y"),
-        "bracketed OR group": lambda n_: wrapped(X.eval_callback("or_test", lambda: [scmp(n_ + "p", n_ + "q"), scmp(n_ + "r", n_ + "s")])[0].value),
-        "bracketed AND group": lambda n_: wrapped(X.eval_callback("and_test", lambda: [scmp(n_ + "p", n_ + "q"), scmp(n_ + "r", n_ + "s")])[0].value),
-        "bracketed OR group containing an AND": lambda n_: wrapped(X.eval_callback("or_test", lambda: [X.eval_callback("and_test", lambda: [scmp(n_ + "p", n_ + "q"), scmp(n_ + "r", n_ + "s")])[0].value, scmp(n_ + "t", n_ + "u")])[0].value),
-        "NOT form": lambda n_: X.eval_callback("not_expression", lambda: [scmp(n_ + "x", n_ + "y")])[0].value,
-        "comparison with a literal containing )": lambda n_: X.eval_callback("comparison", lambda: [sbind(n_), X.eval_callback("compare_op", lambda: [optoken("EQUAL")])[0].value, lit("`a)`")])[0].value,
+        "bracketed OR group": lambda n_: wrapped(X.call1("or_test", lambda: [scmp(n_ + "p", n_ + "q"), scmp(n_ + "r", n_ + "s")])),
+        "bracketed AND group": lambda n_: wrapped(X.call1("and_test", lambda: [scmp(n_ + "p", n_ + "q"), scmp(n_ + "r", n_ + "s")])),
+        "bracketed OR group containing an AND": lambda n_: wrapped(X.call1("or_test", lambda: [X.eval_callback("and_test", lambda: [scmp(n_ + "p", n_ + "q"), scmp(n_ + "r", n_ + "s")])[0].value, scmp(n_ + "t", n_ + "u")])),
+        "NOT form": lambda n_: X.call1("not_expression", lambda: [scmp(n_ + "x", n_ + "y")]),
+        "comparison with a literal containing )": lambda n_: X.call1("comparison", lambda: [sbind(n_), X.eval_callback("compare_op", lambda: [optoken("EQUAL")])[0].value, lit("`a)`")]),
     }
     for lab, opx in (("and_test", " AND "), ("or_test", " OR ")):
         for ln_, lm in operand_makers.items():
@@ -334,29 +350,29 @@ def run(ctx: Ctx) -> None:
 
     ctx.rule("M4", "function calls, parameter lists, bindings, list expressions, regexes and runtime variables keep their elements verbatim with their delimiters", 7)
     v, o = run_cb("func_params", lambda: [operand("X"), operand("Y"), operand("Z")])
-    ctx.check(v == SStr([OA("X"), ",", OA("Y"), ",", OA("Z")]), "M4", "func_params", loc("func_params"), "X,Y,Z", f"func_params builds {v!r}")
-    v, o = run_cb("func_call", lambda: [operand("F"), SStr.atom("P", free=True, excludes=OPX)])
-    ctx.check(v == SStr(["(", OA("F"), "(", OA("P"), "))"]), "M4", "func_call", loc("func_call"), "(F(P))", f"func_call builds {v!r}")
+    ctx.check(same(v, SStr([OA("X"), ",", OA("Y"), ",", OA("Z")])), "M4", "func_params", loc("func_params"), "X,Y,Z", f"func_params builds {v!r}")
+    v, o = run_cb("func_call", lambda: [operand("F"), (("pp") if mode["concrete"] else SStr.atom("P", free=True, excludes=OPX))])
+    ctx.check(same(v, SStr(["(", OA("F"), "(", OA("P"), "))"])), "M4", "func_call", loc("func_call"), "(F(P))", f"func_call builds {v!r}")
     v, o = run_cb("attr_bind", lambda: [operand("W")])
-    ctx.check(v == SStr(["[", OA("W"), "]"]), "M4", "attr_bind", loc("attr_bind"), "[W]", f"attr_bind builds {v!r}")
+    ctx.check(same(v, SStr(["[", OA("W"), "]"])), "M4", "attr_bind", loc("attr_bind"), "[W]", f"attr_bind builds {v!r}")
     for lab in ("regexp", "runtime_var"):
         v, o = run_cb(lab, lambda: [operand("R")])
-        ctx.check(v == SStr([OA("R")]), "M4", lab, loc(lab), "verbatim", f"{lab} builds {v!r}")
+        ctx.check(same(v, SStr([OA("R")])), "M4", lab, loc(lab), "verbatim", f"{lab} builds {v!r}")
     # list: elements are raw tokens (strings keep quotes, numbers their text)
     v, o = run_cb("list", lambda: [operand("A"), operand("B")])
-    ctx.check(v == SStr(["{", OA("A"), ",", OA("B"), "}"]), "M4", "list", loc("list"), "{A,B}", f"list builds {v!r}")
+    ctx.check(same(v, SStr(["{", OA("A"), ",", OA("B"), "}"])), "M4", "list", loc("list"), "{A,B}", f"list builds {v!r}")
     # a list element whose callback rewrote .value (binding, signed number ...) : str(token) is the source text
     holder = {}
 
     def mk_list_bind():
-        w = models.token("UNQUOTED_STRING", SStr.atom("W", free=True, excludes=OPX))
-        b = X.eval_callback("attr_bind", lambda: [w])[0].value
+        w = models.token("UNQUOTED_STRING", "ww" if mode["concrete"] else SStr.atom("W", free=True, excludes=OPX))
+        b = X.call1("attr_bind", lambda: [w])
         holder["b"] = b
         return [b, operand("B")]
 
     v, o = run_cb("list", mk_list_bind)
     want = SStr(["{[", OA("W"), "],", OA("B"), "}"])
-    ctx.check(v == want, "M4", "list with a binding element", loc("list"), want.describe(), f"a list expression {{[W],B}} is rebuilt as {v!r}: the element loses its delimiters (the callback uses the token's source text, not its rewritten value)")
+    ctx.check(same(v, want), "M4", "list with a binding element", loc("list"), want.describe(), f"a list expression {{[W],B}} is rebuilt as {v!r}: the element loses its delimiters (the callback uses the token's source text, not its rewritten value)")
 
     # ---- form lattice ----------------------------------------------------------------------------
     ctx.rule("M5", "expression() returns a string enclosed by its own matching pair of parentheses for every form of its child (atom, wrapped, open, open with leading and trailing parentheses of different groups)", 6)
@@ -365,23 +381,27 @@ def run(ctx: Ctx) -> None:
         return res.attrs["value"]
 
     def bind(name):
-        w = models.token("UNQUOTED_STRING", SStr.atom(name, free=True, excludes=frozenset("()[]\"'` ")))
-        return X.eval_callback("attr_bind", lambda: [w])[0].value
+        w = models.token("UNQUOTED_STRING", name)
+        return X.call1("attr_bind", lambda: [w])
 
     def expr_of(child_maker):
-        return X.eval_callback("expression", lambda: [child_maker()])[0].value
+        return X.call1("expression", lambda: [child_maker()])
 
     forms = {
         "ATOM binding [a]": lambda: bind("a"),
-        "WRAPPED comparison ( [a] = [b] )": lambda: X.eval_callback("comparison", lambda: [bind("a"), X.eval_callback("compare_op", lambda: [optoken("EQUAL")])[0].value, bind("b")])[0].value,
-        "OPEN sum [a] + [b]": lambda: X.eval_callback("add", lambda: [bind("a"), bind("b")])[0].value,
-        "OPEN (..) - (..)  of two parenthesised operands": lambda: X.eval_callback("sub", lambda: [expr_of(lambda: bind("a")), expr_of(lambda: bind("b"))])[0].value,
-        "OPEN (..) / (..)": lambda: X.eval_callback("div", lambda: [expr_of(lambda: bind("a")), expr_of(lambda: bind("b"))])[0].value,
+        "WRAPPED comparison ( [a] = [b] )": lambda: X.call1("comparison", lambda: [bind("a"), X.eval_callback("compare_op", lambda: [optoken("EQUAL")])[0].value, bind("b")]),
+        "OPEN sum [a] + [b]": lambda: X.call1("add", lambda: [bind("a"), bind("b")]),
+        "OPEN (..) - (..)  of two parenthesised operands": lambda: X.call1("sub", lambda: [expr_of(lambda: bind("a")), expr_of(lambda: bind("b"))]),
+        "OPEN (..) / (..)": lambda: X.call1("div", lambda: [expr_of(lambda: bind("a")), expr_of(lambda: bind("b"))]),
         "WRAPPED nested expression (([a]))": lambda: expr_of(lambda: bind("a")),
-        "comparison whose literal contains a bracket, double quotes": lambda: X.eval_callback("comparison", lambda: [bind("a"), X.eval_callback("compare_op", lambda: [optoken("EQUAL")])[0].value, models.token("DOUBLE_QUOTED_STRING", '"a)"')])[0].value,
-        "comparison whose literal contains a bracket, single quotes": lambda: X.eval_callback("comparison", lambda: [bind("a"), X.eval_callback("compare_op", lambda: [optoken("EQUAL")])[0].value, models.token("SINGLE_QUOTED_STRING", "'(a'")])[0].value,
-        "comparison whose literal contains a bracket, back quotes": lambda: X.eval_callback("comparison", lambda: [bind("a"), X.eval_callback("compare_op", lambda: [optoken("EQUAL")])[0].value, models.token("ESCAPED_STRING", "`a)`")])[0].value,
-        "function call (f(p))": lambda: X.eval_callback("func_call", lambda: [models.token("UNQUOTED_STRING", SStr.atom("f", free=True, excludes=frozenset("()\"'`"))), SStr.atom("p", free=True, excludes=frozenset("()\"'`"))])[0].value,
+        "comparison whose literal contains a bracket, double quotes": lambda: X.call1("comparison", lambda: [bind("a"), X.eval_callback("compare_op", lambda: [optoken("EQUAL")])[0].value, models.token("DOUBLE_QUOTED_STRING", '"a)"')]),
+        "comparison whose literal contains a bracket, single quotes": lambda: X.call1("comparison", lambda: [bind("a"), X.eval_callback("compare_op", lambda: [optoken("EQUAL")])[0].value, models.token("SINGLE_QUOTED_STRING", "'(a'")]),
+        "comparison whose literal contains a bracket, back quotes": lambda: X.call1("comparison", lambda: [bind("a"), X.eval_callback("compare_op", lambda: [optoken("EQUAL")])[0].value, models.token("ESCAPED_STRING", "`a)`")]),
+        "function call (f(p))": lambda: X.call1("func_call", lambda: [models.token("UNQUOTED_STRING", "tostring"), "[a],1"]),
+        "OPEN sum with a back-quoted ( literal, minus a bracketed sum": lambda: X.call1("sub", lambda: [expr_of(lambda: X.eval_callback("add", lambda: [bind("a"), models.token("ESCAPED_STRING", "`(`")])[0].value), expr_of(lambda: X.eval_callback("add", lambda: [bind("b"), models.token("SIGNED_INT", "1")])[0].value)]),
+        "OPEN sum of bracketed sums with ` (` and `)` literals": lambda: X.call1("add", lambda: [expr_of(lambda: X.eval_callback("add", lambda: [bind("n"), models.token("ESCAPED_STRING", "` (`")])[0].value), expr_of(lambda: X.eval_callback("add", lambda: [bind("c"), models.token("ESCAPED_STRING", "`)`")])[0].value)]),
+        "OPEN sum with a double-quoted ) literal first": lambda: X.call1("add", lambda: [expr_of(lambda: X.eval_callback("add", lambda: [models.token("DOUBLE_QUOTED_STRING", '")"'), bind("a")])[0].value), expr_of(lambda: bind("b"))]),
+        "OPEN sum with a single-quoted ( literal last": lambda: X.call1("add", lambda: [expr_of(lambda: bind("a")), expr_of(lambda: X.eval_callback("add", lambda: [bind("b"), models.token("SINGLE_QUOTED_STRING", "'('")])[0].value)]),
     }
     for name, mk in forms.items():
         outs = X.eval_callback("expression", lambda mk=mk: [mk()])
